@@ -96,11 +96,229 @@ def inline_private_constants(tree):
     return tree, sorted(ok)
 
 
+def _simple_arg(n):
+    """an argument expression whose evaluation has no effect and can be repeated: a name, a literal, an attribute chain of a name"""
+    if isinstance(n, (ast.Name, ast.Constant)):
+        return True
+    if isinstance(n, ast.Attribute):
+        return _simple_arg(n.value)
+    if isinstance(n, ast.UnaryOp) and isinstance(n.op, (ast.USub, ast.UAdd)):
+        return _simple_arg(n.operand)
+    return False
+
+
+def inline_private_helpers(tree, max_rounds=3):
+    """Second semantics-preserving normalisation: a call of a private module-level helper
+        def _h(p1, …, pk):            # no decorator, *args, **kwargs, nested def, global, yield, loop, try, with
+            [docstring]
+            <assignments / expression statements>
+            return <expr>
+    is expanded in place when it occurs as a whole statement `t = _h(a1, …)`, `t1, t2 = _h(…)`, `return _h(…)` or `_h(…)`,
+    and — for helpers that are a single `return <expr>` — anywhere inside an expression.  Conditions (else the call is left
+    alone, never guessed): `_h` is bound exactly once in the module and never recursive; every parameter gets a *simple*
+    argument (name / literal / attribute chain) or its declared constant default; no parameter is re-assigned in the body;
+    no local of the body occurs in the calling function except as the assignment target itself.  Under these conditions
+    the expanded text computes the same values in the same order, so a refactoring that only moves statements verbatim
+    into such a helper translates to the same Lean text as before."""
+    import copy
+
+    binders = {}
+    for stmt in tree.body:
+        for nm in _bound_names(stmt):
+            binders[nm] = binders.get(nm, 0) + 1
+
+    def helper_info(fn):
+        if fn.decorator_list or fn.args.vararg or fn.args.kwarg or fn.args.posonlyargs or fn.args.kwonlyargs:
+            return None
+        body = list(fn.body)
+        if body and isinstance(body[0], ast.Expr) and isinstance(body[0].value, ast.Constant) and isinstance(body[0].value.value, str):
+            body = body[1:]
+        if not body or not isinstance(body[-1], ast.Return) or body[-1].value is None:
+            return None
+        for st in body[:-1]:
+            if not isinstance(st, (ast.Assign, ast.AugAssign, ast.AnnAssign, ast.Expr)):
+                return None
+        for n in ast.walk(fn):
+            if isinstance(n, (ast.Yield, ast.YieldFrom, ast.Await, ast.Lambda, ast.Global, ast.Nonlocal, ast.NamedExpr)) \
+                    or (isinstance(n, (ast.FunctionDef, ast.ClassDef)) and n is not fn) \
+                    or (isinstance(n, ast.Name) and n.id == fn.name):
+                return None
+        params = [a.arg for a in fn.args.args]
+        defaults = dict(zip(params[len(params) - len(fn.args.defaults):], fn.args.defaults))
+        if any(not _const_expr(d) for d in defaults.values()):
+            return None
+        stores = {n.id for st in body for n in ast.walk(st) if isinstance(n, ast.Name) and isinstance(n.ctx, ast.Store)}
+        if stores & set(params):
+            return None
+        # comprehension variables would need renaming: refuse
+        if any(isinstance(n, (ast.ListComp, ast.SetComp, ast.DictComp, ast.GeneratorExp)) for n in ast.walk(fn)):
+            return None
+        return {"params": params, "defaults": defaults, "body": body, "locals": stores}
+
+    helpers = {}
+    for stmt in tree.body:
+        if isinstance(stmt, ast.FunctionDef) and stmt.name.startswith("_") and not stmt.name.startswith("__") \
+                and binders.get(stmt.name) == 1:
+            info = helper_info(stmt)
+            if info:
+                helpers[stmt.name] = info
+    if not helpers:
+        return tree, []
+    used = set()
+
+    def bind(info, call):
+        """param -> argument expression, or None when the call cannot be expanded"""
+        if any(isinstance(a, ast.Starred) for a in call.args) or any(k.arg is None for k in call.keywords):
+            return None
+        if len(call.args) > len(info["params"]):
+            return None
+        m = dict(zip(info["params"], call.args))
+        for k in call.keywords:
+            if k.arg not in info["params"] or k.arg in m:
+                return None
+            m[k.arg] = k.value
+        for p_ in info["params"]:
+            if p_ not in m:
+                if p_ not in info["defaults"]:
+                    return None
+                m[p_] = info["defaults"][p_]
+        if not all(_simple_arg(v) or _const_expr(v) for v in m.values()):
+            return None
+        return m
+
+    class Subst(ast.NodeTransformer):
+        def __init__(self, m):
+            self.m = m
+
+        def visit_Name(self, n):
+            if isinstance(n.ctx, ast.Load) and n.id in self.m:
+                return ast.copy_location(copy.deepcopy(self.m[n.id]), n)
+            return n
+
+    def names_in(fn_node, skip_stmt):
+        out = set()
+        for n in ast.walk(fn_node):
+            if isinstance(n, ast.Name):
+                out.add(n.id)
+            elif isinstance(n, ast.arg):
+                out.add(n.arg)
+        return out
+
+    def expand_stmt(st, owner):
+        """list of statements replacing `st`, or None"""
+        call, kind = None, None
+        if isinstance(st, ast.Assign) and len(st.targets) == 1 and isinstance(st.value, ast.Call):
+            call, kind = st.value, "assign"
+        elif isinstance(st, ast.Return) and isinstance(st.value, ast.Call):
+            call, kind = st.value, "return"
+        elif isinstance(st, ast.Expr) and isinstance(st.value, ast.Call):
+            call, kind = st.value, "expr"
+        if call is None or not isinstance(call.func, ast.Name) or call.func.id not in helpers:
+            return None
+        info = helpers[call.func.id]
+        m = bind(info, call)
+        if m is None:
+            return None
+        tgt_names = {n.id for n in ast.walk(st.targets[0]) if isinstance(n, ast.Name)} if kind == "assign" else set()
+        # names of the calling function, not counting this statement's own targets
+        others = set()
+        for n in ast.walk(owner):
+            if n is st:
+                continue
+            if isinstance(n, ast.Name):
+                others.add(n.id)
+            elif isinstance(n, ast.arg):
+                others.add(n.arg)
+        # the statement itself is part of owner: its target names were added through the walk; allow a local to coincide
+        # with the target only
+        clash = (info["locals"] & others) - tgt_names
+        real_clash = set()
+        for nm in clash:
+            # is nm used anywhere in owner outside st?
+            cnt = 0
+            for n in ast.walk(owner):
+                if isinstance(n, ast.Name) and n.id == nm:
+                    cnt += 1
+            inside = sum(1 for n in ast.walk(st) if isinstance(n, ast.Name) and n.id == nm)
+            if cnt > inside:
+                real_clash.add(nm)
+        if real_clash:
+            return None
+        sub = Subst(m)
+        out = [sub.visit(copy.deepcopy(b)) for b in info["body"][:-1]]
+        ret = sub.visit(copy.deepcopy(info["body"][-1].value))
+        if kind == "assign":
+            out.append(ast.Assign(targets=[copy.deepcopy(st.targets[0])], value=ret))
+        elif kind == "return":
+            out.append(ast.Return(value=ret))
+        else:
+            out.append(ast.Expr(value=ret))
+        used.add(call.func.id)
+        return [ast.copy_location(o, st) for o in out]
+
+    class ExprInline(ast.NodeTransformer):
+        def visit_Call(self, n):
+            self.generic_visit(n)
+            if isinstance(n.func, ast.Name) and n.func.id in helpers and len(helpers[n.func.id]["body"]) == 1:
+                info = helpers[n.func.id]
+                m = bind(info, n)
+                if m is not None:
+                    used.add(n.func.id)
+                    return ast.copy_location(Subst(m).visit(copy.deepcopy(info["body"][-1].value)), n)
+            return n
+
+    def rewrite_body(body, owner):
+        changed = False
+        out = []
+        for st in body:
+            rep = expand_stmt(st, owner)
+            if rep is not None:
+                out.extend(rep)
+                changed = True
+                continue
+            for fld in ("body", "orelse", "finalbody"):
+                sub = getattr(st, fld, None)
+                if isinstance(sub, list) and sub and isinstance(sub[0], ast.stmt) and not isinstance(st, (ast.FunctionDef, ast.ClassDef)):
+                    nb, ch = rewrite_body(sub, owner)
+                    if ch:
+                        setattr(st, fld, nb)
+                        changed = True
+            out.append(st)
+        return out, changed
+
+    def functions(node):
+        for n in node.body:
+            if isinstance(n, ast.FunctionDef):
+                yield n
+            elif isinstance(n, ast.ClassDef):
+                for k in n.body:
+                    if isinstance(k, ast.FunctionDef):
+                        yield k
+
+    for _ in range(max_rounds):
+        any_change = False
+        for fn in functions(tree):
+            if fn.name in helpers:
+                continue
+            nb, ch = rewrite_body(fn.body, fn)
+            if ch:
+                fn.body = nb
+                any_change = True
+            before = ast.dump(fn)
+            ExprInline().visit(fn)
+            if ast.dump(fn) != before:
+                any_change = True
+        if not any_change:
+            break
+    return ast.fix_missing_locations(tree), sorted(used)
+
+
 def parse(repo, rel):
     path = os.path.join(repo, rel)
     with open(path, "r", encoding="utf-8") as f:
         src = f.read()
     tree, _inlined = inline_private_constants(ast.parse(src, filename=path))
+    tree, _helpers = inline_private_helpers(tree)
     return tree, src
 
 
